@@ -191,6 +191,11 @@ func (w *World) Init(s *kernel.Sim) {
 		if w.mode.LostReply && t.Chance(1, 2) {
 			p.Fault["rpc.lostreply"] = 2
 		}
+		if w.mode.Prop == "C07" && t.Chance(1, 2) {
+			// replies that are not what was asked for (a page whose inside is out of order, one leaf too many, a
+			// misindexed leaf ...): the answer may be refused, but a 200 serves the stored bytes of the range
+			p.Fault["rpc.malformed"] = 1
+		}
 		if w.mode.LostReply && t.Chance(1, 2) {
 			// a QueueLeaf reply without (or with an undecodable) leaf - e.g. a backend that reports a duplicate by status
 			// alone: whatever the front end then does, it has no stored entry to repeat the timestamp of
